@@ -275,6 +275,27 @@ Proof. exact mg_accept_sound. Qed.
 Theorem c12_pipe_unbounded_never_full : forall k ops,
   Forall (fun e => snd e <> RFull) (fst (h_run p_step (p_new k (optcap None)) ops)).
 Proof. exact p_unbounded_never_full. Qed.
+(* held calls (a blocking call started, then released by ONE further call): what the model says about the two-call patterns *)
+Theorem c12_anyway_full_blocks : forall s x, closed s = false -> full (cap s) (length (items s)) = true -> p_add_anyway s x = (s, RNotIssued).
+Proof. exact p_anyway_full_blocks. Qed.
+Theorem c12_anyway_is_add : forall s x, closed s = true \/ full (cap s) (length (items s)) = false -> p_add_anyway s x = p_add s x.
+Proof. exact p_anyway_is_add. Qed.
+Theorem c12_held_anyway_released_by_pop : forall s x y r, closed s = false -> items s = y :: r ->
+  (Z.of_nat (length (items s)) = cap s)%Z ->
+  h_run p_step s [PPopAnyway; PAddAnyway x] = ([(PPopAnyway, RItem y); (PAddAnyway x, RDone)], set_items s (r ++ [x])) /\
+  h_run p_step s [PPop; PAddAnyway x] = ([(PPop, RItem y); (PAddAnyway x, RDone)], set_items s (r ++ [x])).
+Proof. exact p_held_anyway_released_by_pop. Qed.
+Theorem c12_held_anyway_released_by_close : forall s x,
+  h_run p_step s [PClose; PAddAnyway x] = ([(PClose, RDone); (PAddAnyway x, RClosed)], fst (p_close s)).
+Proof. exact p_held_anyway_released_by_close. Qed.
+Theorem c12_held_pop_released : forall (s : C12_Pipe.pq) (x : Z) (chk : bool), closed s = false -> items s = [] ->
+  h_run p_step s [PAdd x; if chk then PPop else PPopAnyway] =
+    ([(PAdd x, RDone); (if chk then PPop else PPopAnyway, RItem x)], set_items s []) /\
+  h_run p_step s [PPrior x; if chk then PPop else PPopAnyway] =
+    ([(PPrior x, RDone); (if chk then PPop else PPopAnyway, RItem x)], set_items s []) /\
+  h_run p_step s [PClose; if chk then PPop else PPopAnyway] =
+    ([(PClose, RDone); (if chk then PPop else PPopAnyway, RClosed)], {| items := []; closed := true; cap := cap s |}).
+Proof. exact p_held_pop_released. Qed.
 Theorem c12_ex_group_leaked_option :
   pg_holds [(KQ, Some 2%Z, [(PAdd 1%Z, RDone)]); (KQ, None, [(PAdd 2%Z, RDone); (PAdd 3%Z, RDone); (PAdd 4%Z, RFull)])] = false.
 Proof. exact ex_pg_leaked_option. Qed.
@@ -396,6 +417,11 @@ Print Assumptions c12_ex_nil_item_reported_as_error.
 Print Assumptions c12_ex_par_ok.
 Print Assumptions c12_ex_par_recycled_wrapper.
 Print Assumptions c12_ex_par_low_priority_first.
+Print Assumptions c12_anyway_full_blocks.
+Print Assumptions c12_anyway_is_add.
+Print Assumptions c12_held_anyway_released_by_pop.
+Print Assumptions c12_held_anyway_released_by_close.
+Print Assumptions c12_held_pop_released.
 Print Assumptions c12_ex_pipe_accept.
 Print Assumptions c12_ex_pipe_bound_off_by_one.
 Print Assumptions c12_ex_pipe_prior_at_back.
